@@ -73,6 +73,11 @@ def make_ops(thorough):
             U("V", "MMcf"),
             C("c3", "V", default_unit="M(ft3)"),
         ]
+    # not a registration: the application USES what is registered (builds quantities and Scalars for
+    # every category and unit, without any clean-up), so that later registrations meet warm caches.
+    # The canonical state does not change; the explorer's self-loop lookahead runs and judges every
+    # registration once more after it.
+    ops.append(("use",))
     return ops
 
 
@@ -208,7 +213,37 @@ def invariants(db, has_base=None, full_i4=True):
     return bad
 
 
+def use_everything(db):
+    from barril.units import Array, ObtainQuantity
+
+    with worlds.installed(db):
+        for c in list(db.IterCategories()):
+            for f in (lambda: Scalar(c), lambda: Scalar(c).IsValid(), lambda: Array(c), lambda: db.GetValidUnits(c), lambda: db.CheckValueForCategory(c, 1.0)):
+                try:
+                    f()
+                except Exception:
+                    pass
+            try:
+                units = db.GetUnits(db.GetCategoryQuantityType(c))
+            except Exception:
+                units = []
+            for u in units:
+                for f in (lambda: Scalar(1.0, u, c), lambda: ObtainQuantity(u, c), lambda: ObtainQuantity(u), lambda: Scalar(1.0, u, c).GetValue(units[0]), lambda: db.CheckCategoryUnit(c, u), lambda: Scalar(c, unit=u)):
+                    try:
+                        f()
+                    except Exception:
+                        pass
+        for name in ("c1", "c2", "L", "T", "V"):
+            for u in ("m", "cm", "s", "Mcf", "1000ft3"):
+                try:
+                    db.CheckCategoryUnit(name, u)
+                except Exception:
+                    pass
+
+
 def fmt(op):
+    if op[0] == "use":
+        return "<use every registered category and unit>"
     if op[0] == "base":
         return "AddUnitBase(%r, %r)" % (op[1], op[2])
     if op[0] == "unit":
@@ -226,6 +261,15 @@ def apply(s, op, part, hist):
     db, model = s.db, s.model
     pre = fingerprint(db) if part is not None else None
     exc = None
+    if op[0] == "use":
+        use_everything(db)
+        if part is not None:
+            part.count("evaluations")
+            part.count("use_steps")
+            if fingerprint(db) != pre:
+                s.broken = True
+                part.violation("C14:%s :: using the registry changed it" % " ; ".join(fmt(o) for o in [OPS[_T["t"]][i] for i in hist] + [op]), {"before": pre, "after": fingerprint(db)})
+        return True
     try:
         if op[0] == "base":
             db.AddUnitBase(op[1], op[2] + "-name", op[2])
@@ -362,7 +406,7 @@ def run(ctx):
     _T["t"] = ctx.thorough
     ops = OPS[ctx.thorough]
     depth = 6 if ctx.thorough else 5
-    res = explorer.bfs(ctx, make, apply, ops, canon, max_depth=depth)
+    res = explorer.bfs(ctx, make, apply, ops, canon, max_depth=depth, lookahead=4)
     run_sharded(ctx, _shipped, ["posc", "posc_nocat", "simple"])
     ctx.level = "model_checking"
     ctx.states = res["states"]
@@ -372,7 +416,7 @@ def run(ctx):
     ctx.part.sample({"deepest_history": [fmt(ops[i]) for i in res["deepest"]]})
     ctx.part.sample({"operations": [fmt(o) for o in ops]})
     ctx.rule = (
-        "BFS to depth %d over %d registration calls on an empty UnitDatabase in lock-step with the registry model, invariants I1-I4 in every state; "
+        "BFS to depth %d over %d operations (registration calls + one step that uses every registered category and unit; every self-loop of a history shorter than 4 is followed by all operations once more) on an empty UnitDatabase in lock-step with the registry model, invariants I1-I4 in every state; "
         "non-trivial = distinct registries with >= 2 units and >= 1 category; outcomes = distinct (verdict, exception class / call kind); plus every unit and category of posc, posc_nocat, simple"
         % (depth, len(ops))
     )
